@@ -204,7 +204,64 @@ func MonC03(r *Run, o *Obs) []Finding {
 			fs = append(fs, Finding{"ctor-count", feat, fmt.Sprintf("transient %s: %d constructor invocations for %d deliveries", m.Describe(i), len(runs), nDeliv)})
 		}
 	}
-	// a delivery of a transient identity whose instance was not produced by a constructor run
+	// whatever produced it: no object may be delivered twice under a transient identity
+	// (catches instances served from a cache the transient constructor never filled)
+	seenAt := map[int64]string{}
+	note := func(p Provided, id int64, where string) {
+		if p.Reg < 0 || !m.Accepted(p.Reg) || m.Regs[p.Reg].Life != godi.Transient || m.Regs[p.Reg].Meta == nil || id <= 0 {
+			return
+		}
+		if prev, dup := seenAt[id]; dup {
+			fs = append(fs, Finding{"identity-served-twice", m.Features(p.Reg), fmt.Sprintf("transient identity of %s: the same object %s was delivered twice (%s and %s)", m.Describe(p.Reg), o.InstName(id), prev, where)})
+			return
+		}
+		seenAt[id] = where
+	}
+	for i := range r.Results {
+		res := &r.Results[i]
+		if res.Class != "ok" {
+			continue
+		}
+		op := r.Ops[res.Op]
+		switch op.Kind {
+		case OpGet:
+			if p, cls := m.expectedGet(op.Type, op.Key); cls == "ok" && len(res.Insts) == 1 && res.Insts[0] != nil {
+				note(p, res.Insts[0].ID, fmt.Sprintf("op%d %s", res.Op, op.String()))
+			}
+		case OpGetGroup:
+			members := m.Groups[GroupKey{op.Type, op.Group}]
+			if len(members) == len(res.Insts) {
+				for k, p := range members {
+					if res.Insts[k] != nil {
+						note(p, res.Insts[k].ID, fmt.Sprintf("op%d %s[%d]", res.Op, op.String(), k))
+					}
+				}
+			}
+		}
+	}
+	for _, run := range o.Runs {
+		if run.Reg < 0 {
+			continue
+		}
+		binds := m.Regs[run.Reg].Binds
+		for k, a := range run.Args {
+			if k >= len(binds) {
+				break
+			}
+			switch b := binds[k]; b.Kind {
+			case BindSingle:
+				if a.Kind == 'i' {
+					note(b.Targets[0], a.IDs[0], fmt.Sprintf("argument %d of %s invocation %d", k, m.Describe(run.Reg), run.Nth))
+				}
+			case BindGroup:
+				if len(a.IDs) == len(b.Targets) {
+					for j, t := range b.Targets {
+						note(t, a.IDs[j], fmt.Sprintf("argument %d[%d] of %s invocation %d", k, j, m.Describe(run.Reg), run.Nth))
+					}
+				}
+			}
+		}
+	}
 	return fs
 }
 
